@@ -332,6 +332,23 @@ def run(chk: core.Check):
                 if bad:
                     chk.mismatch(bad[0], {"kind": "real", "library": label, "middleware": cls, "options": opts}, bad[1],
                                  "only string field values, name-part strings and @string values change, and stay strings", kind="real")
+    # an entry that holds several fields under one key (hand-built, or salvaged from a duplicate-field block): every field
+    # value is converted, each in its place
+    for inplace in (True, False):
+        nreal += 1
+        M = bib.model
+        texts = ["50% of a_b & c", "M\u00fcller #2", "third x~y", "T_1"]
+        ent = M.Entry("misc", "dupkeys", [M.Field("note", texts[0]), M.Field("title", texts[3]), M.Field("note", texts[1]), M.Field("note", texts[2])])
+        try:
+            enc = m.LatexEncodingMiddleware(allow_inplace_modification=inplace).transform(bib.Library([ent]))
+            dec = m.LatexDecodingMiddleware(allow_inplace_modification=inplace).transform(enc)
+            got = [f.value for f in dec.blocks[0].fields] if isinstance(dec.blocks[0], M.Entry) else type(dec.blocks[0]).__name__
+        except Exception as ex:  # noqa
+            got = f"raised {type(ex).__name__}"
+        want = [texts[0], texts[3], texts[1], texts[2]]
+        if got != want:
+            chk.mismatch("round_trip", {"kind": "real", "library": "one entry with three fields under the key 'note'", "middleware": "encode then decode",
+                                        "options": {"inplace": inplace}}, got, want, kind="real")
     # the real converter failing on its own (a group nested deeper than its recursion allows): contained as well
     for depth in (40, 400, 2000):
         for cls in ("LatexDecodingMiddleware", "LatexEncodingMiddleware"):
